@@ -199,4 +199,32 @@ Proof.
   cbn in Hres. destruct Hres as [-> (db & dc & HB & HC & HA)]. unfold p2_fast_of.
   exact (p2_rescale_fast Op Rth I K Rk J X P A A' Bm Bm' C C' db dc HB HC HA).
 Qed.
+
+(* ---- round 6: CMTF and randomised CP as skeletons.  Both record one explicit value per iteration (no normalisation inside the loop).
+   CMTF (squared, unnormalised form; iterate = (factors of the tensor's CP, V)); the value is recorded before the convergence test may stop
+   the run (since d036ea5): for every update rule and stop pattern every recorded value is norm(X - [[A,B,C]])^2 + norm(Y - A V^T)^2 of the
+   iterate returned by the run cut after that iteration *)
+Theorem cmtf_loop_reports_true_errors (X Y : tensor F) (R : nat)
+        (upd : nat -> list (tensor F) * tensor F -> list (tensor F) * tensor F) (stop : nat -> bool) :
+  let Or := mkS upd stop (fun _ => false) (fun st => st) in
+  forall n init j, j < length (snd (s_loop (cmtf_err2 Op X Y R) Or true false n 0 init [])) ->
+  nth_error (snd (s_loop (cmtf_err2 Op X Y R) Or true false n 0 init [])) j
+  = Some (cmtf_err2 Op X Y R (fst (s_loop (cmtf_err2 Op X Y R) Or true false (S j) 0 init []))).
+Proof. intros Or n init j Hj. apply (s_loop_every_entry _ _ (cmtf_err2 Op X Y R) Or true false); [intros; reflexivity | exact Hj]. Qed.
+(* randomised CP (explicit residual of the full tensor; value recorded BEFORE the callback may stop the run, since 28121fa): for every
+   update rule (the sampled least squares), stagnation / convergence stop and callback stop pattern *)
+Definition cp_explicit_err2 (X : tensor F) (R : nat) (st : option (list F) * list (tensor F)) : F :=
+  fst (err_cp_true Op X R (fst st) (snd st) None None).
+Theorem randomised_loop_reports_true_errors (X : tensor F) (R : nat)
+        (upd : nat -> option (list F) * list (tensor F) -> option (list F) * list (tensor F)) (stop cb_stop : nat -> bool) :
+  let Or := mkS upd stop cb_stop (fun st => st) in
+  forall n init j, j < length (snd (s_loop (cp_explicit_err2 X R) Or true false n 0 init [])) ->
+  nth_error (snd (s_loop (cp_explicit_err2 X R) Or true false n 0 init [])) j
+  = Some (cp_explicit_err2 X R (fst (s_loop (cp_explicit_err2 X R) Or true false (S j) 0 init []))) /\
+  s_last_ok _ _ (cp_explicit_err2 X R) (s_loop (cp_explicit_err2 X R) Or true false (S n) 0 init []).
+Proof.
+  intros Or n init j Hj. split.
+  - apply (s_loop_every_entry _ _ (cp_explicit_err2 X R) Or true false); [intros; reflexivity | exact Hj].
+  - apply (s_loop_sound _ _ (cp_explicit_err2 X R) Or true false); [intros; reflexivity | now left | lia].
+Qed.
 End Compose.
